@@ -62,6 +62,7 @@ struct State {
     choked: bool,
     interested: bool,
     keep_alive: u32,
+    handshake_done: bool,
 }
 
 struct Stats {
@@ -170,6 +171,7 @@ impl PeerHandler {
                 choked: true,
                 interested: false,
                 keep_alive: 0,
+                handshake_done: false,
             },
             stats: Stats::new(),
             msg_buff: vec![],
@@ -344,6 +346,11 @@ impl PeerHandler {
     ) -> Result<bool, Box<dyn std::error::Error>> {
         match opt_frame {
             Some(frame) => {
+                // Nothing is accepted from (or answered to) peer before his valid Handshake
+                if !self.peer_state.handshake_done && !matches!(frame, Frame::Handshake(_)) {
+                    return Err(Error::InvalidProtocolId.into());
+                }
+
                 self.peer_state.keep_alive = match frame {
                     Frame::KeepAlive(_) => self.peer_state.keep_alive,
                     _ => 0,
@@ -378,6 +385,7 @@ impl PeerHandler {
         handshake: &Handshake,
     ) -> Result<bool, Box<dyn std::error::Error>> {
         handshake.validate(&self.info_hash, &self.peer_id)?;
+        self.peer_state.handshake_done = true;
 
         let peer_init_handshake = self.peer_id.is_none();
         self.peer_id = Some(*handshake.peer_id());
